@@ -98,6 +98,8 @@ static void bodyVoid(const Tok& a, int b)
   nv_yield("body", &g_bodyMark); nv_result(&g_bodyMark, (unsigned long long)a.v);
 }
 
+static volatile int g_inPoolCtor = 0;
+int sched_clock_frozen() { return g_inPoolCtor || FP::_threadPoolLock != 0; }   // the only code run under the spin lock of startProc is `new ThreadPool`
 static Pool* curPool() { return g_pool ? g_pool : (Pool*)FP::_threadPool; }
 
 const char* sched_name(const void* addr, char* buf)
@@ -328,7 +330,7 @@ static int runScenario(char* line)
   for(int k = 0; k < NF; ++k) { new (fiMem[k]) Future<Res>; new (fvMem[k]) Future<void>; }
   if(!lazy)
   {
-    g_pool = new Pool((usize)mn, (usize)mx, (usize)q); g_poolAlive = true;
+    g_inPoolCtor = 1; g_pool = new Pool((usize)mn, (usize)mx, (usize)q); g_inPoolCtor = 0; g_poolAlive = true;
     FP::_threadPool = g_pool;
   }
   else g_poolAlive = true; // name look-ups go through FP::_threadPool once startProc has created it
